@@ -498,7 +498,22 @@ HEIGHT_FNS = (r"draw_target::LineType::wrapped_height", r"draw_target::visual_li
               r"draw_target::DrawState::visual_line_count")
 
 
+def _accumulations(b, slices):
+    acc = []
+    for sl in slices:
+        for c in sl.calls:
+            if c.matches(*VL_ADDITIVE) and b.in_loop(c.bb):
+                # the per-line addend must come from wrapped_height of the current line
+                asl = b.slice_args(c, [1])
+                if asl.has_call(r"draw_target::LineType::wrapped_height") and c not in acc:
+                    acc.append(c)
+    return acc
+
+
 def emitter_commit_info(ctx, crate, rule):
+    """(paint body, count param of the emitter, commit stores, per-line accumulations). The paint body is the
+    emitter itself, or the crate-private helper whose returned row count the emitter commits (paint loop
+    extracted into a function): the accumulations are then those flowing into the helper's return value."""
     b = the_emitter(ctx, crate, rule)
     if not b:
         return None
@@ -510,15 +525,26 @@ def emitter_commit_info(ctx, crate, rule):
     if not commits:
         ctx.lost(rule, crate.config, "no commit store in the emitter")
         return None
-    acc = []
-    for i, j, s in commits:
-        sl = b.slice_rv(i, s)
-        for c in sl.calls:
-            if c.matches(*VL_ADDITIVE) and b.in_loop(c.bb):
-                # the per-line addend must come from wrapped_height of the current line
-                asl = b.slice_args(c, [1])
-                if asl.has_call(r"draw_target::LineType::wrapped_height") and c not in acc:
-                    acc.append(c)
+    csl = [b.slice_rv(i, s) for i, j, s in commits]
+    acc = _accumulations(b, csl)
+    if not acc:
+        for sl in csl:
+            for c in sl.calls:
+                if not c.callee.get("local"):
+                    continue
+                for tn in crate.resolve_targets(c):
+                    h = crate.bodies.get(tn)
+                    if h is None or h.kind == "Closure" or h.api or not tl_calls(h, "write_str"):
+                        continue
+                    rsl = []
+                    for d in h.defs().get(0, ()):
+                        if d["kind"] == "assign":
+                            rsl.append(h.slice_rv(d["bb"], {"lhs": d["lhs"], "rv": d["rv"]}))
+                        elif d["kind"] == "call":
+                            rsl.append(h.slice_args(d["call"]))
+                    acc_h = _accumulations(h, rsl)
+                    if acc_h:
+                        return h, p, commits, acc_h
     return b, p, commits, acc
 
 
